@@ -11,6 +11,11 @@ if [ ! -d "$WT" ]; then git -C /repo worktree add -q --detach "$WT" HEAD || exit
 cd "$WT" && git checkout -q -- . && git clean -fdq -e target
 FEATS=${FEATS:-doc}
 run_demo() { # prints pass/fail
+  if [ -f "$SEED/demo.sh" ] && [ "${USE_SH:-auto}" != "no" ] && { [ ! -f "$SEED/demo.rs" ] || [ "${USE_SH:-auto}" = "yes" ]; }; then
+    if bash "$SEED/demo.sh" "$WT" >"$SEED/.demo_$1.log" 2>&1; then echo pass; else echo fail; fi
+    git clean -fdq -e target
+    return
+  fi
   cp "$SEED/demo.rs" tests/demo.rs
   if cargo test --offline --features "$FEATS" --test demo >"$SEED/.demo_$1.log" 2>&1; then echo pass; else echo fail; fi
   rm -f tests/demo.rs
